@@ -25,6 +25,8 @@ var faultSites = []string{
 	"sign-error", "domain-31-bytes", "domain-33-bytes", "data-31-bytes",
 	// every entry from the position to the end of the batch carries the same unusable input
 	"domain-31-bytes-run", "data-31-bytes-run",
+	// two wrong lengths that add up to the right total
+	"data-31-domain-33-bytes", "data-28-domain-36-bytes", "data-33-domain-31-bytes",
 }
 
 func siteApplies(site, kind string, size int) bool {
@@ -35,6 +37,8 @@ func siteApplies(site, kind string, size int) bool {
 	case "rules-short", "rules-empty", "store-write-error-behind-refused-entry":
 		return kind == "atts" && size >= 2
 	case "data-31-bytes":
+		return kind == "gen" || kind == "multi"
+	case "data-31-domain-33-bytes", "data-28-domain-36-bytes", "data-33-domain-31-bytes":
 		return kind == "gen" || kind == "multi"
 	case "data-31-bytes-run":
 		return kind == "multi" && size >= 3
@@ -187,6 +191,13 @@ func runFaultMatrix(t *testing.T, rc *RunCtx) {
 		e.Domain = append(append([]byte{}, e.Domain...), 0x55)
 	case "data-31-bytes":
 		e.Data = e.Data[:31]
+	case "data-31-domain-33-bytes":
+		e.Data, e.Domain = e.Data[:31], append(append([]byte{}, e.Domain...), 0x55)
+	case "data-28-domain-36-bytes":
+		// four harmless bytes followed by a complete attester domain
+		e.Data, e.Domain = e.Data[:28], append([]byte{7, 0, 0, 0}, MkDomain(DomAttester, 9)...)
+	case "data-33-domain-31-bytes":
+		e.Data, e.Domain = append(append([]byte{}, e.Data...), 0x01), e.Domain[:31]
 	case "data-31-bytes-run", "domain-31-bytes-run":
 		for i := fc.Pos; i < len(o.Entries); i++ {
 			if fc.Site == "data-31-bytes-run" {
@@ -253,7 +264,8 @@ func runFaultMatrix(t *testing.T, rc *RunCtx) {
 	}
 	// Reach: the planned fault must actually have fired (except input-shaped faults).
 	switch fc.Site {
-	case "sealed-account", "record-wrong-length", "record-undecodable", "store-closed", "domain-31-bytes", "domain-33-bytes", "data-31-bytes", "domain-31-bytes-run", "data-31-bytes-run":
+	case "sealed-account", "record-wrong-length", "record-undecodable", "store-closed", "domain-31-bytes", "domain-33-bytes", "data-31-bytes", "domain-31-bytes-run", "data-31-bytes-run",
+		"data-31-domain-33-bytes", "data-28-domain-36-bytes", "data-33-domain-31-bytes":
 		rc.Stats.Inc("fault_input:"+fc.Site, 1)
 	default:
 		if len(plan.Fired) == 0 {
